@@ -399,7 +399,10 @@ def extra_state_kind(M, rec, rng, st):
     dest_ = UK.GatedDestination(name="D1") if rng.random() < 0.4 else M.Destination(name="D1")
     if isinstance(dest_, UK.GatedDestination):
         rec.count("extra_state_kind_with_a_destination_that_owns_an_action")
-    net = M.Network().add_path((n1, l1, n2, l2, n3), origin=org, destination=dest_)
+    net_cls = UK.QueuesFirstNetwork if rng.random() < 0.35 else M.Network  # a subclass listing its elements in another order
+    if net_cls is not M.Network:
+        rec.count("extra_state_kind_on_a_network_listing_its_elements_in_another_order")
+    net = net_cls().add_path((n1, l1, n2, l2, n3), origin=org, destination=dest_)
     eng = CE(st)
     pars = dict(T=10 / 3600, tau=18 / 3600, eta=60.0, kappa=40.0)
     try:
